@@ -3,6 +3,7 @@ package fat12
 import (
 	"io"
 
+	"github.com/diskfs/go-diskfs/backend"
 	"github.com/diskfs/go-diskfs/internal/vp"
 	"github.com/diskfs/go-diskfs/internal/vp/vpdev"
 )
@@ -43,10 +44,13 @@ func (t *c10ModelTable) Size() uint32             { return 0 }
 func (t *c10ModelTable) FromBytes(b []byte)       {}
 func (t *c10ModelTable) Bytes() []byte            { return nil }
 
-// c10LaneDev is a device whose byte at address a is byte number `lane` of a (lane arbitrary, 0..7).
-// A reader that fetches a byte from a wrong address therefore delivers a wrong byte in at least
-// one lane: comparing delivered bytes for every lane compares the full 64-bit addresses, without
-// uninterpreted functions in the solver queries.
+// c10LaneDev is a device whose byte at address a is byte number `lane` of a (lane arbitrary,
+// 0..lanes-1). A reader that fetches a byte from a wrong address delivers a wrong byte in at
+// least one lane: comparing delivered bytes for every lane compares the low 8*lanes bits of the
+// addresses, without uninterpreted functions in the solver queries. With lanes == 1 the lane is
+// the constant 0 (addresses compared modulo 256, which with 4-byte clusters still shows the
+// cluster number's low 6 bits, the position in the cluster and the low byte of the geometry
+// constants); the full 64-bit address arithmetic is the subject of the geometry harnesses.
 type c10LaneDev struct {
 	*vpdev.MemDev
 	lane uint
@@ -62,23 +66,46 @@ func (d *c10LaneDev) ReadAt(p []byte, off int64) (int, error) {
 	return len(p), nil
 }
 
-func c10NewLaneDev() *c10LaneDev {
+func c10NewLaneDev(lanes uint) *c10LaneDev {
 	m := vpdev.NewMemDev("disk", -1)
 	m.NoWrites = true
-	lane := uint(vp.U8("lane"))
-	vp.Assume(lane < 8)
+	lane := uint(0)
+	if lanes > 1 {
+		lane = uint(vp.U8("lane"))
+		vp.Assume(lane < lanes)
+	}
 	return &c10LaneDev{MemDev: m, lane: lane}
 }
+
+// c10RecDev records the (offset, length) of every ReadAt and delivers fresh arbitrary bytes
+// rd<k>[..] for call k, so that the harness can tell which call a buffer byte came from.
+type c10RecDev struct {
+	*vpdev.MemDev
+	offs []int64
+	lens []int
+	data [][]byte
+}
+
+func (d *c10RecDev) ReadAt(p []byte, off int64) (int, error) {
+	k := len(d.offs)
+	fresh := vp.Bytes("rd"+string(rune('0'+k)), cap10)
+	d.offs = append(d.offs, off)
+	d.lens = append(d.lens, len(p))
+	d.data = append(d.data, fresh)
+	vp.FillFunc(p, func(i int) byte { return fresh[vp.IteInt(i < cap10, i, 0)] })
+	return len(p), nil
+}
+
+const cap10 = 10 // fresh bytes per recorded call (>= the buffer sizes used with c10RecDev)
 
 const (
 	c10Fat12Real = iota // the real fat12Table, 12 entries, every entry arbitrary
 	c10FatModel         // the interface stub above, cluster numbers up to 2^28
 )
 
-// c10FatFS builds a filesystem whose geometry is arbitrary and whose table holds a chain of
-// exactly L clusters starting at the returned first cluster. chain[i] is the harness's own walk.
-func c10FatFS(kind, L, bpc int) (*FileSystem, *c10LaneDev, []uint32) {
-	dev := c10NewLaneDev()
+// c10FatFS builds a filesystem on dev whose table holds a chain of exactly L clusters starting
+// at chain[0]; chain[i] is the harness's own walk over the raw table entries.
+func c10FatFS(dev backend.Storage, kind, L, bpc int, symGeom bool) (*FileSystem, []uint32) {
 	chain := make([]uint32, L)
 	var tbl FATTable
 	switch kind {
@@ -117,17 +144,24 @@ func c10FatFS(kind, L, bpc int) (*FileSystem, *c10LaneDev, []uint32) {
 		}
 		tbl = &c10ModelTable{chain: chain, max: maxc}
 	}
-	start := vp.I64("fs.start")
-	vp.Assume(start >= 0)
-	vp.Assume(start <= 1<<50)
+	// partition start and data-region start: fixed (but > 32 bit resp. not cluster-aligned) in the
+	// multi-cluster harnesses, arbitrary in the geometry harness
+	start := int64(0x1234567835)
+	dataStart := uint32(0x00042611)
+	if symGeom {
+		start = vp.I64("fs.start")
+		vp.Assume(start >= 0)
+		vp.Assume(start <= 1<<50)
+		dataStart = vp.U32("dataStart")
+	}
 	fs := &FileSystem{
 		table:           tbl,
-		dataStart:       vp.U32("dataStart"),
+		dataStart:       dataStart,
 		bytesPerCluster: bpc,
 		start:           start,
 		backend:         dev,
 	}
-	return fs, dev, chain
+	return fs, chain
 }
 
 // c10Offset: an arbitrary non-negative int64 (built by a shift so that the engine knows the sign
@@ -145,8 +179,10 @@ func c10FatPos(fs *FileSystem, chain []uint32, bpc int, p int64) int64 {
 }
 
 // c10FatRead: Read into a buffer of arbitrary length 0..N from an arbitrary cursor.
-func c10FatRead(kind, L, bpc, N int) {
-	fs, dev, chain := c10FatFS(kind, L, bpc)
+// The buffer positions listed in probes are compared (nil = all of them).
+func c10FatRead(kind, L, bpc, N int, lanes uint, probes []int) {
+	dev := c10NewLaneDev(lanes)
+	fs, chain := c10FatFS(dev, kind, L, bpc, false)
 	size := vp.U32("size")
 	vp.Assume(int64(size) <= int64(L)*int64(bpc))
 	off := c10Offset()
@@ -171,7 +207,7 @@ func c10FatRead(kind, L, bpc, N int) {
 	}
 	// KF-C10-1: the read starts inside a cluster and the file ends before both the buffer and
 	// that cluster do: Read copies min(len(b), rest of the cluster) bytes instead of the rest of the file.
-	inCl := off % int64(bpc)
+	inCl := int64(uint64(off) % uint64(bpc))
 	kf1 := inCl != 0 && off < int64(size) && rem < int64(k) && rem < int64(bpc)-inCl
 
 	vp.Unwind(L + 3)
@@ -182,15 +218,35 @@ func c10FatRead(kind, L, bpc, N int) {
 
 	vp.AssertUnless("KF-C10-1", kf1, int64(n) == want, "n = min(len(b), bytes remaining)")
 	vp.AssertUnless("KF-C10-1", kf1, fl.offset == off+want, "cursor advances by the bytes delivered")
-	for i := 0; i < N; i++ {
+	vp.Unwind(16)
+	for pi := 0; pi < N; pi++ {
+		i := pi
+		if probes != nil {
+			if pi >= len(probes) {
+				break
+			}
+			i = probes[pi]
+		}
 		if int64(i) < want {
 			vp.Assert(buf[i] == dev.ByteAt(c10FatPos(fs, chain, bpc, off+int64(i))), "delivered byte = file byte at cursor+i")
 		} else {
 			vp.AssertUnless("KF-C10-1", kf1, buf[i] == orig[i], "buffer beyond n is untouched")
 		}
 	}
+	c10ReadResult(err, off, want, int64(size), k)
+	if k > 0 {
+		if inCl != 0 {
+			if want > int64(bpc)-inCl {
+				vp.Cover("read starts inside a cluster and crosses into the next")
+			}
+		}
+	}
+}
+
+// c10ReadResult: the error value of a Read that had `want` bytes to deliver into a buffer of k bytes.
+func c10ReadResult(err error, off, want, size int64, k int) {
 	if err == io.EOF {
-		vp.Assert(off+want >= int64(size), "io.EOF only when the end is reached")
+		vp.Assert(off+want >= size, "io.EOF only when the end is reached")
 		vp.Cover("EOF reported")
 	}
 	if k > 0 {
@@ -200,17 +256,12 @@ func c10FatRead(kind, L, bpc, N int) {
 			vp.Cover("read at or past the end")
 		}
 		if want == int64(k) {
-			if off+want < int64(size) {
+			if off+want < size {
 				vp.Assert(err == nil, "a full read that stops before the end reports no error")
 				vp.Cover("full read before the end")
 			}
 		} else if want > 0 {
 			vp.Cover("short read at the end")
-		}
-		if inCl != 0 {
-			if want > int64(bpc)-inCl {
-				vp.Cover("read starts inside a cluster and crosses into the next")
-			}
 		}
 	} else {
 		vp.Cover("empty buffer")
@@ -218,29 +269,96 @@ func c10FatRead(kind, L, bpc, N int) {
 }
 
 // small mode: cluster = 4 bytes, buffer up to 2 clusters + 1 (all relative positions of cursor,
-// cluster boundary, buffer end and file end occur).
-func VP_C10_fat_read_fat12_L1() { c10FatRead(c10Fat12Real, 1, 4, 9) }
-func VP_C10_fat_read_fat12_L2() { c10FatRead(c10Fat12Real, 2, 4, 9) }
-func VP_C10_fat_read_fat12_L3() { c10FatRead(c10Fat12Real, 3, 4, 9) }
+// cluster boundary, buffer end and file end occur); every buffer byte compared.
+func VP_C10_fat_read_fat12_L1() { c10FatRead(c10Fat12Real, 1, 4, 9, 1, nil) }
+func VP_C10_fat_read_fat12_L2() { c10FatRead(c10Fat12Real, 2, 4, 9, 1, nil) }
+func VP_C10_fat_read_fat12_L3() { c10FatRead(c10Fat12Real, 3, 4, 9, 1, nil) }
 func VP_C10_fat_read_fat12_L4() {
 	if vp.Thorough() {
-		c10FatRead(c10Fat12Real, 4, 4, 13)
+		c10FatRead(c10Fat12Real, 4, 4, 13, 1, nil)
 	}
 }
-func VP_C10_fat_read_model_L1() { c10FatRead(c10FatModel, 1, 4, 9) }
-func VP_C10_fat_read_model_L3() { c10FatRead(c10FatModel, 3, 4, 9) }
+func VP_C10_fat_read_model_L1() { c10FatRead(c10FatModel, 1, 4, 9, 1, nil) }
+func VP_C10_fat_read_model_L3() { c10FatRead(c10FatModel, 3, 4, 9, 1, nil) }
 
-// real cluster sizes, cluster numbers up to 2^28.
-func VP_C10_fat_read_arith_512()  { c10FatRead(c10FatModel, 3, 512, 2*512+1) }
-func VP_C10_fat_read_arith_32k() {
+// real cluster sizes, cluster numbers up to 2^28; buffer bytes around the cluster boundaries compared.
+func VP_C10_fat_read_real_512() {
+	c10FatRead(c10FatModel, 3, 512, 2*512+1, 2, []int{0, 1, 510, 511, 512, 513, 1022, 1023, 1024})
+}
+func VP_C10_fat_read_real_32k() {
 	if vp.Thorough() {
-		c10FatRead(c10FatModel, 3, 32768, 2*32768+1)
+		c10FatRead(c10FatModel, 3, 32768, 2*32768+1, 3, []int{0, 1, 32767, 32768, 32769, 65534, 65535, 65536})
 	}
 }
+
+// c10FatGeometry: arbitrary partition start, data-region start and 28-bit cluster number with a
+// real cluster size; a one-cluster file. Every device access must be at
+// start + dataStart + (cluster-2)*bytesPerCluster + file position, on all 64 bits, and the buffer
+// must hold what those accesses delivered, in order.
+func c10FatGeometry(bpc int) {
+	m := vpdev.NewMemDev("disk", -1)
+	m.NoWrites = true
+	dev := &c10RecDev{MemDev: m}
+	fs, chain := c10FatFS(dev, c10FatModel, 1, bpc, true)
+	size := vp.U32("size")
+	vp.Assume(int64(size) <= int64(bpc))
+	off := c10Offset()
+	de := &directoryEntry{clusterLocation: chain[0], fileSize: size, filesystem: fs}
+	fl := &File{directoryEntry: de, offset: off, filesystem: fs}
+	const N = 6
+	buf := vp.Bytes("buf", N)
+	k := vp.Int("len")
+	vp.Assume(k >= 0)
+	vp.Assume(k <= N)
+	rem := int64(size) - off
+	if rem < 0 {
+		rem = 0
+	}
+	want := int64(k)
+	if rem < want {
+		want = rem
+	}
+	inCl := int64(uint64(off) % uint64(bpc))
+	kf1 := inCl != 0 && off < int64(size) && rem < int64(k) && rem < int64(bpc)-inCl
+
+	vp.Unwind(5)
+	vp.NoPanic()
+	vp.KnownPanic("KF-C10-1", "fat12/file.go:158")
+	n, err := fl.Read(buf[:k])
+	vp.AllowPanic()
+
+	vp.AssertUnless("KF-C10-1", kf1, int64(n) == want, "n = min(len(b), bytes remaining)")
+	_ = err
+	base := fs.start + int64(fs.dataStart) + int64(chain[0]-2)*int64(bpc)
+	done := 0
+	for c := range dev.offs {
+		if dev.lens[c] > 0 {
+			vp.Assert(dev.offs[c] == base+off+int64(done), "device access at partition start + data start + (cluster-2)*cluster size + file position")
+		}
+		for i := 0; i < N; i++ {
+			if i >= done {
+				if i < done+dev.lens[c] {
+					if int64(i) < want {
+						vp.Assert(buf[i] == dev.data[c][vp.IteInt(i-done < cap10, i-done, 0)], "buffer byte = byte delivered by the device for that position")
+					}
+				}
+			}
+		}
+		done += dev.lens[c]
+		vp.Cover("device access checked")
+	}
+	vp.AssertUnless("KF-C10-1", kf1, int64(done) == want, "exactly the delivered bytes were fetched from the device")
+	if len(dev.offs) >= 2 {
+		vp.Cover("two device accesses")
+	}
+}
+
+func VP_C10_fat_read_geometry_512() { c10FatGeometry(512) }
+func VP_C10_fat_read_geometry_32k() { c10FatGeometry(32768) }
 
 // c10FatHandle: handle for the Seek / Close steps.
 func c10FatHandle() *File {
-	fs, _, chain := c10FatFS(c10FatModel, 1, 512)
+	fs, chain := c10FatFS(c10NewLaneDev(1), c10FatModel, 1, 512, true)
 	off := c10Offset()
 	de := &directoryEntry{clusterLocation: chain[0], fileSize: vp.U32("size"), filesystem: fs}
 	return &File{directoryEntry: de, offset: off, filesystem: fs}
